@@ -75,7 +75,42 @@ def judge (i : In) (edit : Bytes → Bytes) (impl : String) : String :=
         | _ => true) then "viol:forwarded-not-event-data"
     else "ok"
 
+/-! `hist <site> <allow> <edit> <hex>,<hex>,…` — a history of messages on the proxy-registered channel through
+the same handler; every subscriber keeps its `Data()` slice and is released only after ALL messages were
+handled.  Output `ev=P:<first>/<late>,… fw=<sorted writes>`: per event the body at first sight and again
+after the whole history was handled (before its own edit). -/
+
+def insertS (x : String) : List String → List String
+  | [] => [x]
+  | y :: ys => if x ≤ y then x :: y :: ys else y :: insertS x ys
+def sortS (l : List String) : List String := l.foldr insertS []
+
+def histStep (site : Site) (allow : Allow) (edit : Bytes → Bytes) (bodies : List Bytes) (impl : String) : String × String :=
+  let st := allocFresh [] bodies
+  let evs := (List.range bodies.length).map fun k =>
+    "P:" ++ toHex (bodies.getD k []) ++ "/" ++ toHex ((lateView st k).getD [])
+  let outs := bodies.map fun b => handle edit ⟨site, .known, b, [], allow, true⟩
+  let fws := sortS (outs.flatMap fun o => o.2.map (showFw true site.toBackend))
+  let model := "ev=" ++ showList evs ++ " fw=" ++ showList fws
+  let verdict := match parseImpl impl with
+    | none => "viol:unparsable"
+    | some (ievs, ifws) =>
+      if ievs.length ≠ bodies.length then "viol:event-count"
+      else if (ievs.zip bodies).any (fun (e, b) => !(e.startsWith ("P:" ++ toHex b ++ "/"))) then "viol:event-not-body"
+      else if (ievs.zip bodies).any (fun (e, b) => e != "P:" ++ toHex b ++ "/" ++ toHex b) then "viol:event-data-overwritten"
+      else if sortS (ifws.map (":".intercalate ·)) != fws then "viol:forwarded-not-event-data"
+      else "ok"
+  (model, verdict)
+
 def step (c : Case) : String × String :=
+  if c.op = "hist" then
+    match c.args with
+    | [site, al, ed, hs] =>
+      (match parseSite site, parseAllow al, (hs.splitOn ",").mapM parseHex with
+       | some site, some allow, some bodies => histStep site allow (editFn ed) bodies c.impl
+       | _, _, _ => ("bad-op", "-"))
+    | _ => ("bad-op", "-")
+  else
   match c.args with
   | [cls, dh, rh, al, ed, wok] =>
     (match parseSite c.op, parseCls cls, parseHex dh, parseHex rh, parseAllow al with
